@@ -35,6 +35,10 @@ MUTANTS = [
      'reraised_exception.try_with_lazy_message.__exit__'),
     (R, "    raise decorate_exception(exc, message) from None", "    return False",
      'reraised_exception.try_with_lazy_message.__exit__'),
+    ('fiddle/_src/selectors.py', "            self.match_subclasses  #", "            True  #",
+     'selectors.NodeSelection._matches'),
+    ('fiddle/_src/selectors.py', "    if not isinstance(node, self.buildable_type):",
+     "    if not isinstance(node, config_lib.Buildable):", 'selectors.NodeSelection._matches'),
     ('fiddle/_src/absl_flags/flags.py', 'self._remaining_directives.pop(0)', 'self._remaining_directives.pop()',
      'flags.FiddleFlag.value'),
     (C, "object.__setattr__(rebuilt, '__argument_tags__', metadata.tags())",
